@@ -850,8 +850,9 @@ class Explorer:
         res = self.res
         blocks = [tuple(reversed(B)) if order == "rev" else tuple(B) for B in P]
         first, rest = ((blocks[0], blocks[1:]) if blocks else ((), [])) if real == "ctor" else ((), blocks)
-        # facet of the signatures: which calls carried data (two or more set_data calls are one class)
-        label = "+".join((["ctor"] if first or not rest else []) + ["set_data"] * min(len(rest), 2))
+        # facet of the signatures: which calls carried data - ctor / ctor+set_data / set_data / set_data+set_data (= several)
+        with_ctor = bool(first) or not rest
+        label = "+".join((["ctor"] if with_ctor else []) + ["set_data"] * min(len(rest), 1 if with_ctor else 2))
         res.count("problem:histories")
         res.count("problem:route=%s,steps=%d" % ("ctor" if real == "ctor" else "set_data", len(blocks)))
         _b = self.g.build(self.k)
@@ -952,14 +953,15 @@ class Explorer:
             return False
         if len(history) > 1 and bt in ("Posterior", "Distribution"):
             self.reduced = True
-        sig = "BayesianProblem|%s|%%s,%s" % ("%s", route)
+        def sig(op):
+            return "BayesianProblem|%s|%%s,%s" % (op, route)
         out = self.call(_t.logd, **_cp(self.vals, remaining))
-        vkw = self.judge_problem(out, self.ref, d, "kw", sig % "target.logd", "problem target (%s) logd(keywords)" % bt, history)
+        vkw = self.judge_problem(out, self.ref, d, "kw", sig("target.logd"), "problem target (%s) logd(keywords)" % bt, history)
         if out[0] == "ok":
             res.outcomes.add("%s:problem:%s:%.10g" % (self.g.gid, bt, out[1]))
         if names and vkw is not None:
             out = self.call(_t.logd, *[GR.copy_val(self.vals[n]) for n in names])
-            self.judge_problem(out, self.ref, d, "pos", sig % "target.logd-positional", "problem target (%s) logd(positional)" % bt, history)
+            self.judge_problem(out, self.ref, d, "pos", sig("target.logd-positional"), "problem target (%s) logd(positional)" % bt, history)
         # the accessors of the class
         res.transitions += 1
         try:
@@ -975,7 +977,7 @@ class Explorer:
                           % (x, type(perr).__name__, str(perr)[:200]), history)
                 return True
             out = self.call(_p.logd, GR.copy_val(self.vals[x]))
-            self.judge_problem(out, self.ref, d, "post", sig % "posterior.logd", "problem.posterior.logd", history)
+            self.judge_problem(out, self.ref, d, "post", sig("posterior.logd"), "problem.posterior.logd", history)
             try:
                 _lk, _pr = _bp.likelihood, _bp.prior
                 lname = _lk.name
@@ -986,9 +988,9 @@ class Explorer:
                 self.fail("BayesianProblem|likelihood|wrong-variable,%s" % route, "problem.likelihood is named %r, not one of the "
                           "fixed variables of the graph" % (lname,), history)
                 return True
-            a1 = self.judge_problem(self.call(_lk.logd, GR.copy_val(self.vals[x])), self.reffac[lname], d, "lik", sig % "likelihood.logd",
+            a1 = self.judge_problem(self.call(_lk.logd, GR.copy_val(self.vals[x])), self.reffac[lname], d, "lik", sig("likelihood.logd"),
                                     "problem.likelihood[%s].logd" % lname, history)
-            a2 = self.judge_problem(self.call(_pr.logd, GR.copy_val(self.vals[x])), self.reffac[x], d, "prior", sig % "prior.logd",
+            a2 = self.judge_problem(self.call(_pr.logd, GR.copy_val(self.vals[x])), self.reffac[x], d, "prior", sig("prior.logd"),
                                     "problem.prior.logd", history)
             fixed_contrib = sum(self.reffac[n] for n in self.reffac if n not in (x, lname))
             res.evaluations += 1
@@ -999,7 +1001,7 @@ class Explorer:
         elif perr is None and remaining:
             # the accessor may refuse (the target is not a Posterior); an object that is handed out must be the target's density
             out = self.call(_p.logd, **_cp(self.vals, remaining))
-            self.judge_problem(out, self.ref, d, "kw", sig % "posterior.logd", "problem.posterior (target is a %s) logd" % bt, history)
+            self.judge_problem(out, self.ref, d, "kw", sig("posterior.logd"), "problem.posterior (target is a %s) logd" % bt, history)
         return True
 
     # -- differential oracle ---------------------------------------------------------------------
